@@ -77,14 +77,16 @@ AW1 == /\ pcF = "AW1"                                    \* load w.s
 AW2 == /\ pcF = "AW2"                                    \* CAS w.s: p -> sleeper
        /\ IF ws[AW] = sp THEN ws' = [ws EXCEPT ![AW] = "slp"] /\ pcF' = "idle" /\ nadd' = nadd + 1
           ELSE pcF' = "AW1" /\ UNCHANGED <<ws, nadd>>
-       /\ UNCHANGED <<shared, local, waitingG, parked, fblock, fw, fops, sp, sv, dq, pend, inDone, wkr, hist>>
+       /\ sp' = "nil"
+       /\ UNCHANGED <<shared, local, waitingG, parked, fblock, fw, fops, sv, dq, pend, inDone, wkr, hist>>
 SE1 == /\ pcF = "SE1"                                    \* enqueueAssertedWaker run by the sleeper: load sharedList
        /\ sv' = HeadOr0(shared) /\ pcF' = "SE2"
        /\ UNCHANGED <<mem, fblock, fw, fops, nadd, sp, dq, pend, inDone, wkr, hist>>
 SE2 == /\ pcF = "SE2"                                    \* CAS sharedList
        /\ IF HeadOr0(shared) = sv THEN shared' = <<AW>> \o shared /\ pcF' = "SE3"
           ELSE pcF' = "SE1" /\ UNCHANGED shared
-       /\ UNCHANGED <<ws, local, waitingG, parked, fblock, fw, fops, nadd, sp, sv, dq, pend, inDone, wkr, hist>>
+       /\ sv' = 0
+       /\ UNCHANGED <<ws, local, waitingG, parked, fblock, fw, fops, nadd, sp, dq, pend, inDone, wkr, hist>>
 SE3 == /\ pcF = "SE3"                                    \* load waitingG: the sleeper itself is running, so it reads 0
        /\ Assert(waitingG = 0, "SE3: waitingG # 0 while the sleeper runs AddWaker")
        /\ pcF' = "idle" /\ nadd' = nadd + 1
@@ -96,13 +98,13 @@ StartFetch(b) == /\ pcF = "idle" /\ ~inDone /\ nadd = NW /\ fops < MaxF
                  /\ UNCHANGED <<ws, shared, waitingG, parked, nadd, sp, sv, dq, pend, inDone, wkr, hist>>
 \* load sharedList at the top of the loop in nextWaker
 FL2 == /\ pcF = "L2"
-       /\ IF shared # <<>> THEN pcF' = "Lswap" /\ UNCHANGED viol
+       /\ IF shared # <<>> THEN pcF' = "Lswap" /\ UNCHANGED <<viol, fblock>>
           ELSE IF ~fblock /\ ~inDone
-               THEN /\ pcF' = "idle"                     \* non-blocking Fetch reports nothing
+               THEN /\ pcF' = "idle" /\ fblock' = FALSE  \* non-blocking Fetch reports nothing
                     /\ viol' = IF \E w \in W : complete[w] /\ ~\E g \in G : T(g) = w /\ InAssert(g)
                                THEN viol \cup {"NBSound"} ELSE viol
-               ELSE pcF' = "L3" /\ UNCHANGED viol
-       /\ UNCHANGED <<mem, fblock, fw, fops, nadd, sp, sv, dq, pend, inDone, wkr, ghost, complete>>
+               ELSE pcF' = "L3" /\ UNCHANGED <<viol, fblock>>
+       /\ UNCHANGED <<mem, fw, fops, nadd, sp, sv, dq, pend, inDone, wkr, ghost, complete>>
 FL3 == /\ pcF = "L3" /\ waitingG' = 1 /\ pcF' = "L4"     \* StoreUintptr(preparingG)
        /\ UNCHANGED <<ws, shared, local, parked, fblock, fw, fops, nadd, sp, sv, dq, pend, inDone, wkr, hist>>
 FL4 == /\ pcF = "L4"                                     \* the re-check of sharedList
@@ -127,11 +129,11 @@ FLswap == /\ pcF = "Lswap"
 FFswap == /\ pcF = "Fswap"
           /\ ws' = [ws EXCEPT ![fw] = "slp"]
           /\ IF ws[fw] = "asserted"
-             THEN /\ pcF' = "idle" /\ fw' = 0 /\ UNCHANGED local
+             THEN /\ pcF' = "idle" /\ fw' = 0 /\ fblock' = FALSE /\ UNCHANGED local
                   /\ viol' = IF ghost[fw] THEN viol ELSE viol \cup {"NoInvented"}
                   /\ ghost' = [ghost EXCEPT ![fw] = FALSE] /\ complete' = [complete EXCEPT ![fw] = FALSE]
-             ELSE FetchNext(local) /\ UNCHANGED hist
-          /\ UNCHANGED <<shared, waitingG, parked, fblock, fops, nadd, sp, sv, dq, pend, inDone, wkr>>
+             ELSE FetchNext(local) /\ UNCHANGED <<hist, fblock>>
+          /\ UNCHANGED <<shared, waitingG, parked, fops, nadd, sp, sv, dq, pend, inDone, wkr>>
 
 \* Done: first loop over allWakers (most recently added first), then wait for the pending ones
 AfterScan(q, pd) == IF q # <<>> THEN pcF' = "D1" /\ pend' = pd /\ UNCHANGED local
@@ -179,7 +181,8 @@ GE2(g) == /\ pcG[g] = "E2"                                \* CAS sharedList: v -
           /\ IF HeadOr0(shared) = gv[g]
              THEN shared' = <<T(g)>> \o shared /\ pcG' = [pcG EXCEPT ![g] = "E3"]
              ELSE pcG' = [pcG EXCEPT ![g] = "E1"] /\ UNCHANGED shared
-          /\ UNCHANGED <<ws, local, waitingG, parked, slp, gv, gg, gops, hist>>
+          /\ gv' = [gv EXCEPT ![g] = 0]
+          /\ UNCHANGED <<ws, local, waitingG, parked, slp, gg, gops, hist>>
 GE3(g) == /\ pcG[g] = "E3"                                \* load waitingG
           /\ IF waitingG = 0
              THEN pcG' = [pcG EXCEPT ![g] = "idle"] /\ UNCHANGED <<gg, ghost>> /\ AssertRet(g)
@@ -189,11 +192,12 @@ GE4(g) == /\ pcG[g] = "E4"                                \* CAS waitingG: g -> 
           /\ IF waitingG = gg[g]
              THEN waitingG' = 0 /\ pcG' = [pcG EXCEPT ![g] = IF gg[g] = 2 THEN "E5" ELSE "E3"]
              ELSE pcG' = [pcG EXCEPT ![g] = "E3"] /\ UNCHANGED waitingG
-          /\ UNCHANGED <<ws, shared, local, parked, slp, gv, gg, gops, hist>>
+          /\ gg' = [gg EXCEPT ![g] = IF waitingG = gg[g] /\ gg[g] = 2 THEN 2 ELSE 0]
+          /\ UNCHANGED <<ws, shared, local, parked, slp, gv, gops, hist>>
 GE5(g) == /\ pcG[g] = "E5"                                \* goready: the sleeper runs up to its next load of sharedList
           /\ Assert(parked /\ pcF = "parked", "goready of a goroutine that is not parked")
-          /\ parked' = FALSE /\ pcF' = "L2" /\ pcG' = [pcG EXCEPT ![g] = "E3"]
-          /\ UNCHANGED <<ws, shared, local, waitingG, fblock, fw, fops, nadd, sp, sv, dq, pend, inDone, gv, gg, gops, hist>>
+          /\ parked' = FALSE /\ pcF' = "L2" /\ pcG' = [pcG EXCEPT ![g] = "E3"] /\ gg' = [gg EXCEPT ![g] = 0]
+          /\ UNCHANGED <<ws, shared, local, waitingG, fblock, fw, fops, nadd, sp, sv, dq, pend, inDone, gv, gops, hist>>
 GC1(g) == /\ pcG[g] = "C1"                                \* load w.s
           /\ pcG' = [pcG EXCEPT ![g] = IF ws[T(g)] # "asserted" THEN "idle" ELSE "C2"]
           /\ UNCHANGED <<mem, slp, gv, gg, gops, hist>>
